@@ -158,7 +158,7 @@ fn ex_json(ex: &Exchange) -> Value {
 /// or None if the mutation degenerates to the authentic exchange.
 type Mutated = (String, Option<Vec<u8>>, Vec<u8>, Vec<u8>, u64, [u8; 32]);
 
-const N_STRUCT: usize = 33;
+const N_STRUCT: usize = 34;
 
 fn flip(v: &mut [u8], bit: usize) {
     v[bit / 8] ^= 1 << (bit % 8);
@@ -285,6 +285,20 @@ fn structural(ex: &Exchange, kind: usize, t: &mut Tape) -> Option<Mutated> {
             let mut sig = vec![0x30, body.len() as u8];
             sig.extend(body);
             base("well-formed DER signature with a degenerate scalar (0 or >= n)", w(&format!("{}:{}", hex::encode(sig), hex::encode(rh))))
+        }
+        33 => {
+            // one hex digit of the hash (or signature) text replaced by a character that lenient number parsers
+            // swallow: a '+' or blank in place of a leading '0', 'O' for '0', upper-case 'X', '_' ...
+            let on_hash = !t.chance(1, 4);
+            let text: String = if on_hash { hex::encode(rh) } else { hex::encode(&der) };
+            let zeros: Vec<usize> = text.bytes().enumerate().filter(|(_, b)| *b == b'0').map(|(i, _)| i).collect();
+            let pos = if !zeros.is_empty() && !t.chance(1, 4) { zeros[t.choose(zeros.len())] } else { t.choose(text.len()) };
+            let c = *t.pick(&['+', ' ', '-', 'O', 'o', '_', 'x', 'g', '\t']);
+            let mut chars: Vec<char> = text.chars().collect();
+            chars[pos] = c;
+            let changed: String = chars.into_iter().collect();
+            let etag = if on_hash { format!("{}:{}", hex::encode(&der), changed) } else { format!("{}:{}", changed, hex::encode(rh)) };
+            base(&format!("a hex digit of the {} replaced by {c:?}", if on_hash { "request hash" } else { "signature" }), w(&etag))
         }
         32 => {
             // the authentic signature with a request hash that differs from the true one in several bytes at once
